@@ -3,7 +3,13 @@
 //! provider has no index), and off (same optimizer rule list without VectorSearchPushdown).
 //! case: {"dim": d, "rows": [[id, cat|null, g|null, [f32..]|null], ..], "batch_sizes": [..]?, "queries": [sql..]}
 //! per query: {"on","idx","off": sqlutil results, "fired": null | node summary,
-//!             "pre": the plan the rule saw (shape only, names lower-cased)}
+//!             "pre": the plan the rule saw (shape only, names lower-cased),
+//!             "spy_exact","spy_idx": results over a provider that DOES implement scan_knn (KnnSpy below),
+//!             "spy_exact_calls","spy_idx_calls": how often its scan_knn was called by that statement,
+//!             "spy_idx_use_index": the use_index flags it was called with}
+//! KnnSpy wraps a MemoryTable and answers scan_knn with a plausible but DIFFERENT top-k than the SQL: rows with a NULL
+//! vector are dropped and ties come in reverse row order (what a provider-side flat search may do); with a prefilter it
+//! declines (Ok(None)). It records every call.
 use arrow::array::*;
 use arrow::datatypes::{DataType, Field, Schema};
 use arrow::record_batch::RecordBatch;
@@ -15,8 +21,89 @@ use query_engine::planner::vector_types::{as_float_vector, VectorMetric};
 use query_engine::planner::{Expr, LogicalPlan, NullOrdering, ScalarFunction, ScalarValue, SortDirection};
 use query_engine::ExecutionContext;
 use serde_json::{json, Value};
+use query_engine::physical::operators::{MemoryTable, TableProvider, TableStatistics};
+use query_engine::physical::vector::VectorQuery;
 use std::collections::HashMap;
-use std::sync::Arc;
+use std::sync::atomic::{AtomicUsize, Ordering};
+use std::sync::{Arc, Mutex};
+
+#[derive(Debug)]
+struct KnnSpy {
+    inner: MemoryTable,
+    batches: Vec<RecordBatch>,
+    calls: AtomicUsize,
+    use_index: Mutex<Vec<bool>>,
+}
+
+impl TableProvider for KnnSpy {
+    fn schema(&self) -> arrow::datatypes::SchemaRef {
+        self.inner.schema()
+    }
+    fn scan(&self, projection: Option<&[usize]>) -> query_engine::Result<Vec<RecordBatch>> {
+        self.inner.scan(projection)
+    }
+    fn scan_with_filter(
+        &self,
+        projection: Option<&[usize]>,
+        filter: Option<&Expr>,
+    ) -> query_engine::Result<Vec<RecordBatch>> {
+        self.inner.scan_with_filter(projection, filter)
+    }
+    fn statistics(&self) -> Option<TableStatistics> {
+        self.inner.statistics()
+    }
+    fn scan_knn(&self, projection: Option<&[usize]>, q: &VectorQuery) -> query_engine::Result<Option<Vec<RecordBatch>>> {
+        self.calls.fetch_add(1, Ordering::SeqCst);
+        self.use_index.lock().unwrap().push(q.use_index);
+        if q.filter.is_some() || self.batches.is_empty() {
+            return Ok(None);
+        }
+        let all = arrow::compute::concat_batches(&self.inner.schema(), &self.batches)?;
+        let ci = match all.schema().index_of(&q.column) {
+            Ok(i) => i,
+            Err(_) => return Ok(None),
+        };
+        let Some(list) = all.column(ci).as_any().downcast_ref::<FixedSizeListArray>() else {
+            return Ok(None);
+        };
+        let vals = list.values().as_any().downcast_ref::<Float32Array>().unwrap();
+        let d = list.value_length() as usize;
+        if d != q.query.len() {
+            return Ok(None);
+        }
+        // (score, row): smaller score = nearer
+        let mut scored: Vec<(f64, usize)> = Vec::new();
+        for r in (0..all.num_rows()).rev() {
+            if list.is_null(r) {
+                continue; // a provider-side search never returns rows without a vector
+            }
+            let (mut dot, mut na, mut nb, mut l2) = (0f64, 0f64, 0f64, 0f64);
+            for j in 0..d {
+                let a = vals.value(r * d + j) as f64;
+                let b = q.query[j] as f64;
+                dot += a * b;
+                na += a * a;
+                nb += b * b;
+                l2 += (a - b) * (a - b);
+            }
+            let score = match q.metric {
+                VectorMetric::L2 => l2.sqrt(),
+                VectorMetric::Cosine => 1.0 - dot / (na.sqrt() * nb.sqrt()),
+                VectorMetric::Dot => -dot,
+            };
+            scored.push((score, r));
+        }
+        scored.sort_by(|x, y| x.0.partial_cmp(&y.0).unwrap_or(std::cmp::Ordering::Equal)); // stable: ties stay in reverse row order
+        let idx = UInt32Array::from(scored.iter().take(q.k).map(|(_, r)| *r as u32).collect::<Vec<_>>());
+        let taken = arrow::compute::take_record_batch(&all, &idx)?;
+        let out = match projection {
+            Some(p) => taken.project(p)?,
+            None => taken,
+        };
+        Ok(Some(vec![out]))
+    }
+}
+
 
 fn main() {
     qe_verif_harness::run_lines(case)
@@ -187,6 +274,21 @@ fn case(v: &Value) -> Value {
     cfg.vector_search_mode = VectorSearchMode::Indexed;
     let mut ictx = ExecutionContext::with_config(cfg);
     ictx.register_table("v", schema.clone(), batches.clone());
+    let mk_spy = || {
+        Arc::new(KnnSpy {
+            inner: MemoryTable::new(schema.clone(), batches.clone()),
+            batches: batches.clone(),
+            calls: AtomicUsize::new(0),
+            use_index: Mutex::new(Vec::new()),
+        })
+    };
+    let (spy_e, spy_i) = (mk_spy(), mk_spy());
+    let mut sctx = ExecutionContext::new();
+    sctx.register_table_provider("v", spy_e.clone());
+    let mut cfg2 = ExecutionConfig::default();
+    cfg2.vector_search_mode = VectorSearchMode::Indexed;
+    let mut sictx = ExecutionContext::with_config(cfg2);
+    sictx.register_table_provider("v", spy_i.clone());
     let default_is_exact = ExecutionConfig::default().vector_search_mode == VectorSearchMode::Exact
         || std::env::var("QE_VECTOR_SEARCH").is_ok();
 
@@ -203,6 +305,14 @@ fn case(v: &Value) -> Value {
         let sql = q.as_str().unwrap();
         let on = sqlutil::run_sql(&rt, &ctx, sql);
         let idx = sqlutil::run_sql(&rt, &ictx, sql);
+        let c0 = spy_e.calls.load(Ordering::SeqCst);
+        let spy_exact = sqlutil::run_sql(&rt, &sctx, sql);
+        let spy_exact_calls = spy_e.calls.load(Ordering::SeqCst) - c0;
+        let c1 = spy_i.calls.load(Ordering::SeqCst);
+        let u1 = spy_i.use_index.lock().unwrap().len();
+        let spy_idx = sqlutil::run_sql(&rt, &sictx, sql);
+        let spy_idx_calls = spy_i.calls.load(Ordering::SeqCst) - c1;
+        let spy_idx_use_index: Vec<bool> = spy_i.use_index.lock().unwrap()[u1..].to_vec();
         let (off, pre) = match std::panic::catch_unwind(std::panic::AssertUnwindSafe(|| ctx.logical_plan(sql))) {
             Ok(Ok(lp)) => {
                 let mut opt = Optimizer::with_rules(rules_without_vs());
@@ -243,7 +353,9 @@ fn case(v: &Value) -> Value {
             }),
             Err(_) => None,
         };
-        outs.push(json!({"on": on, "idx": idx, "off": off, "fired": fired, "pre": pre}));
+        outs.push(json!({"on": on, "idx": idx, "off": off, "fired": fired, "pre": pre,
+                         "spy_exact": spy_exact, "spy_idx": spy_idx, "spy_exact_calls": spy_exact_calls,
+                         "spy_idx_calls": spy_idx_calls, "spy_idx_use_index": spy_idx_use_index}));
     }
     json!({"results": outs, "default_is_exact": default_is_exact, "rule_list_ok": rule_list_ok})
 }
